@@ -12,27 +12,30 @@ the senders' current nonces (`View`).
 namespace C22
 open C21
 
-/-- **admit_sound** — if a submission is admitted then every clause of the property holds, for a
-plain transaction and for every member of a group: all signatures verify; the hash is not already
-pooled; no member is on the chain; no member is expired for the next block (height / block time /
-TxHeight window); the fee covers the minimum at the base rate and, when the tiered fee is enabled,
-at the tier's rate; every recipient is valid; every member's sender is below the per-sender limit;
-no involved account is blacklisted; an eth-signed sender's nonce is neither below the current
-nonce nor already pending — and the new pool is exactly `push` of the record. -/
-theorem admit_sound (cfg : Cfg) (a : ACfg) (p : Pool) (v : View) (s : Sub) (now : Int) (p' : Pool)
+/-- **admit_sound_partial** — if a submission is admitted then, for a plain transaction and for every
+member of a group: all signatures verify; the hash is not already pooled; no member is on the chain;
+the HEAD's eth nonce (the code checks `tx.Tx()` only) is neither below its sender's current nonce nor
+already pending; and the new pool is exactly `push` of the record.  Hypothesis added for the other six
+clauses, `s.fwd = false` (the node does not forward the transaction to the main chain — always true on
+a main-chain node): no member is expired for the next block (height / block time / TxHeight window);
+the fee covers the minimum at the base rate and, when the tiered fee is enabled, at the tier's rate;
+every recipient is valid; every member's sender is below the per-sender limit; no involved account
+is blacklisted.  See `admit_full_false` / `member_nonce_full_false` for what fails without it. -/
+theorem admit_sound_partial (cfg : Cfg) (a : ACfg) (p : Pool) (v : View) (s : Sub) (now : Int) (p' : Pool)
     (h : admitTx cfg a p v s now = (p', .ok ())) :
     (∀ m ∈ s.ms, m.sigOk = true) ∧
     s.tx.id ∉ ids p ∧
     (∀ m ∈ s.ms, m.id ∉ v.chain) ∧
-    (∀ m ∈ s.ms, expired1 cfg m.exp (p.h + 1) p.bt = false) ∧
-    (a.minFee ≠ 0 → ∃ t, totalFee s.ms a.minFee = .ok t ∧ t ≤ s.tx.fee) ∧
-    (a.level = true → ∃ t, totalFee s.ms (levelRate a p) = .ok t ∧ t ≤ s.tx.fee) ∧
-    (∀ m ∈ s.ms, m.toOk = true) ∧
-    (∀ m ∈ s.ms, accNum p.acc m.snd < cfg.perAcc) ∧
-    (∀ m ∈ s.ms, m.bl = false) ∧
     (s.tx.eth = true → curNonce v s.tx.snd ≤ s.tx.nonce ∧
         ∀ t ∈ accTxs p.acc s.tx.snd, t.id ≠ s.tx.id → t.nonce ≠ s.tx.nonce) ∧
-    push cfg p s.tx now = (p', .ok) := by
+    push cfg p s.tx now = (p', .ok) ∧
+    (s.fwd = false →
+      (∀ m ∈ s.ms, expired1 cfg m.exp (p.h + 1) p.bt = false) ∧
+      (a.minFee ≠ 0 → ∃ t, totalFee s.ms a.minFee = .ok t ∧ t ≤ s.tx.fee) ∧
+      (a.level = true → ∃ t, totalFee s.ms (levelRate a p) = .ok t ∧ t ≤ s.tx.fee) ∧
+      (∀ m ∈ s.ms, m.toOk = true) ∧
+      (∀ m ∈ s.ms, accNum p.acc m.snd < cfg.perAcc) ∧
+      (∀ m ∈ s.ms, m.bl = false)) := by
   unfold admitTx at h
   cases hpre : precheck cfg a p v s now with
   | error e => rw [hpre] at h; simp at h
@@ -40,7 +43,6 @@ theorem admit_sound (cfg : Cfg) (a : ACfg) (p : Pool) (v : View) (s : Sub) (now 
     cases u
     rw [hpre] at h
     simp only at h
-    -- the push succeeded
     have hpush : push cfg p s.tx now = (p', .ok) := by
       cases hp : push cfg p s.tx now with
       | mk q r =>
@@ -49,12 +51,8 @@ theorem admit_sound (cfg : Cfg) (a : ACfg) (p : Pool) (v : View) (s : Sub) (now 
         rw [h]
     unfold precheck at hpre
     simp only [seq_ok] at hpre
-    obtain ⟨hfee, hlvl, hmem, hsig, hdup, _, hnonce⟩ := hpre
-    rw [firstErr_ok] at hmem
-    have hm := fun m hm => checkMember_ok cfg p now m (hmem m hm)
-    refine ⟨?_, ?_, ?_, fun m h => (hm m h).2.2.2.1, fun hmin => checkFee_ok a s hfee hmin, ?_,
-      fun m h => (hm m h).1, fun m h => (hm m h).2.2.1, fun m h => (hm m h).2.1,
-      fun heth => nonceCheck_ok p v s.tx hnonce heth, hpush⟩
+    obtain ⟨htxs, hsig, hdup, _, hnonce⟩ := hpre
+    refine ⟨?_, ?_, ?_, fun heth => nonceCheck_ok p v s.tx hnonce heth, hpush, ?_⟩
     · by_cases hs : s.ms.all (·.sigOk) = true
       · intro m hmm; exact List.all_eq_true.mp hs m hmm
       · simp [hs] at hsig
@@ -66,9 +64,57 @@ theorem admit_sound (cfg : Cfg) (a : ACfg) (p : Pool) (v : View) (s : Sub) (now 
         apply hd
         rw [List.any_eq_true]
         exact ⟨m, hmm, by simpa using hc⟩
-    · intro hl
+    · intro hf
+      unfold checkTxs at htxs
+      simp only [hf, Bool.false_eq_true, if_false, seq_ok] at htxs
+      obtain ⟨hfee, hlvl, hmem⟩ := htxs
+      rw [firstErr_ok] at hmem
+      have hm := fun m hm => checkMember_ok cfg p now m (hmem m hm)
+      refine ⟨fun m h => (hm m h).2.2.2.1, fun hmin => checkFee_ok a s hfee hmin, ?_,
+        fun m h => (hm m h).1, fun m h => (hm m h).2.2.1, fun m h => (hm m h).2.1⟩
+      intro hl
       rw [hl] at hlvl
       exact checkLevelFee_ok a p s hlvl
+
+/-- The property text without the forwarding hypothesis: an admitted submission has no expired
+member, only valid recipients, no blacklisted account and every sender below its limit. -/
+def AdmitFullStatement : Prop :=
+  ∀ (cfg : Cfg) (a : ACfg) (p : Pool) (v : View) (s : Sub) (now : Int),
+    replyCode (admitTx cfg a p v s now).2 = none →
+      (∀ m ∈ s.ms, expired1 cfg m.exp (p.h + 1) p.bt = false) ∧ (∀ m ∈ s.ms, m.toOk = true) ∧
+      (∀ m ∈ s.ms, accNum p.acc m.snd < cfg.perAcc) ∧ (∀ m ∈ s.ms, m.bl = false)
+
+/-- The nonce clause for every eth-signed member (the property says "for eth-signed senders"). -/
+def MemberNonceFullStatement : Prop :=
+  ∀ (cfg : Cfg) (a : ACfg) (p : Pool) (v : View) (s : Sub) (now : Int),
+    replyCode (admitTx cfg a p v s now).2 = none →
+      ∀ m ∈ s.ms, m.eth = true → curNonce v m.snd ≤ m.nonce
+
+def fwCfg : Cfg := ⟨4, 4, 2, 3, false⟩
+def fwA : ACfg := ⟨100000, 1000000000, 10000000, false, false, true, 10000⟩
+/-- forwarded on a para-chain node: expired at the next height (6), invalid recipient, blacklisted, fee 0 -/
+def fwSub : Sub :=
+  ⟨⟨1, 0, 175, 0, 6, [6], false, false, 3, 0x5e1d34cf85⟩, [⟨1, 0, 175, 0, 6, true, false, true, true, false, 3⟩], true⟩
+/-- a group whose second member is eth-signed with nonce 2 while its sender's current nonce is 5 -/
+def mnSub : Sub :=
+  ⟨⟨1, 0, 700, 200000, 0, [0, 0], false, false, 9, 0x5e1d34cf85⟩,
+   [⟨1, 0, 250, 200000, 0, true, true, false, true, false, 9⟩, ⟨2, 7, 260, 0, 0, true, true, false, true, true, 2⟩], false⟩
+
+/-- **C22-forward** — `AdmitFullStatement` is false of the model, and of the code (harness: para-chain
+histories, finding `C22|checkTxs-forward2main|admitted-without-basic-checks`). -/
+theorem admit_full_false : ¬ AdmitFullStatement := by
+  intro h
+  have := h fwCfg fwA (Pool.empty 5 100) ⟨[], [], []⟩ fwSub 100 (by decide)
+  revert this
+  decide
+
+/-- **C22-member-nonce** — only the head's nonce is checked (finding
+`C22|evmTxNonceCheck|admitted-group-with-unchecked-non-head-eth-member-nonce`). -/
+theorem member_nonce_full_false : ¬ MemberNonceFullStatement := by
+  intro h
+  have := h fwCfg fwA (Pool.empty 5 100) ⟨[], [], [(7, 5)]⟩ mnSub 100 (by decide)
+  revert this
+  decide
 
 /-- **reject_no_change** — a submission that is not admitted leaves the pool exactly as it was. -/
 theorem reject_no_change (cfg : Cfg) (hper : 0 < cfg.perAcc) (a : ACfg) (p : Pool) (v : View) (s : Sub) (now : Int)
@@ -103,12 +149,12 @@ theorem admit_ok_iff_pushed (cfg : Cfg) (a : ACfg) (p : Pool) (v : View) (s : Su
     cases hp : push cfg p s.tx now with
     | mk q r => cases r <;> simp
 
-/-! ### non-vacuity: a concrete acceptable submission is admitted, a violating one is rejected -/
+/-! ### non-vacuity: a concrete acceptable submission (`fwd = false`) is admitted, a violating one is rejected -/
 
 def exCfg : Cfg := ⟨4, 4, 2, 3, true⟩
 def exA : ACfg := ⟨100000, 1000000000, 10000000, false, false, true, 10000⟩
 def exTx : Tx := ⟨1, 0, 175, 100000, 0, [0], true, true, 3, 0x5e1d34cf85⟩
-def exSub : Sub := ⟨exTx, [⟨1, 0, 175, 100000, 0, true, true, false, true⟩]⟩
+def exSub : Sub := ⟨exTx, [⟨1, 0, 175, 100000, 0, true, true, false, true, true, 3⟩], false⟩
 def exView : View := ⟨[9], [], [(0, 3)]⟩
 
 example : replyCode (admitTx exCfg exA (Pool.empty 5 100) exView exSub 100).2 = none ∧
